@@ -1,8 +1,9 @@
 (* C08  Every reported range is well-formed, UTF-16 correct and on target.
    The full statement is false of the composed model (text -> lexer -> parser -> producers), which
    equals the implementation on every generated document; a witness below for the recorded
-   finding class that the model covers (the other witnesses of the pinned tree -- rune columns,
-   overlapping folds -- were repaired in /repo and are positive samples now).  What the validator
+   finding class that the model covers (the document link spans the keyword; the other witnesses of
+   the pinned tree -- rune columns, payee estimate, overlapping folds -- were repaired in /repo and
+   are positive samples now).  What the validator
    demands is made explicit.  For EVERY byte string the positions of the token stream, which all
    reported ranges are built from, are proved consistent (C08_token_positions_consistent), and so are the date, account and commodity
    ranges of the AST, which are token ranges (C08_ast_ranges_are_token_ranges). *)
@@ -41,16 +42,26 @@ Theorem C08_sample_nonbmp_account :
 Proof. exact nonbmp_account_covered. Qed.
 Print Assumptions C08_sample_nonbmp_account.
 
-Theorem C08_refuted_payee_estimate :
-  match hover_of t_code 0 14 with
-  | Some (HPayee, r) => covers (doc_lines t_code) r (bs "monthly rent") = false
+(* (the second witness of the pinned tree -- the payee range estimated from the date width -- was
+   repaired in /repo: the parser records the payee range) *)
+Theorem C08_sample_payee_range :
+  match hover_of t_code 0 24 with
+  | Some (HPayee, r) => range_ok (doc_lines t_code) r && covers (doc_lines t_code) r (bs "monthly rent") = true
   | _ => False
   end.
-Proof. exact payee_estimate_wrong. Qed.
-Print Assumptions C08_refuted_payee_estimate.
+Proof. exact payee_range_recorded. Qed.
+Print Assumptions C08_sample_payee_range.
 
 (* (the third witness of the pinned tree, overlapping folds of adjacent transactions -- [(0, 2); (2, 5)]
    on this text -- was repaired in /repo: each fold now ends on its transaction's last line) *)
+Theorem C08_refuted_link_range :
+  match parse t_include with
+  | Some (j, _) => doc_links j = [mkPR 0 0 0 21] /\ covers (doc_lines t_include) (mkPR 0 0 0 21) (bs "other.journal") = false
+  | None => False
+  end.
+Proof. exact link_range_includes_keyword. Qed.
+Print Assumptions C08_refuted_link_range.
+
 Theorem C08_sample_adjacent_folds :
   match ranges_of t_adjacent with
   | Some (_, fs) => fs = [(0, 1); (2, 4)] /\ folds_laminar fs = true
